@@ -621,7 +621,14 @@ impl<'a> ExprGen<'a> {
             (true, Some(o)) => o,
             (false, None) => path,
             (false, Some(o)) => {
-                if self.r.chance(1, 2) {
+                // three ways to apply the operation to what the path selects: through a pipe,
+                // after a dot (wrapped), or with the path written directly as the argument -
+                // they differ in how many references to the selected node are alive while
+                // the function runs
+                let direct = o.ends_with("(@)") && o.matches('@').count() == 1 && !path.ends_with(']');
+                if direct && self.r.chance(1, 3) {
+                    format!("{}{})", &o[..o.len() - 2], path)
+                } else if self.r.chance(1, 2) {
                     format!("{} | {}", path, o)
                 } else {
                     // apply op with `@` replaced by the path where that is a plain call
